@@ -121,9 +121,6 @@ func (n *Node) op(kind string, e Ev, do func() error) error {
 	if crashAfter {
 		c.crashNow(n, k, "after", kind)
 	}
-	// scheduler gate "after:<kind>": the call has taken effect but has not returned to the
-	// library yet (only armed for calls the library makes without holding its lock)
-	n.fsm.wait("after:" + kind)
 	return err
 }
 
@@ -340,7 +337,7 @@ func (f *snapFileW) Close() error {
 	content, ok := decodeSnapshot(f.mirror.Bytes())
 	e["ok"] = ok
 	e["content"] = content
-	return f.n.op("snap_close", e, func() error {
+	err := f.n.op("snap_close", e, func() error {
 		err := f.inner.Close()
 		if err == nil {
 			f.n.c.mu.Lock()
@@ -349,6 +346,12 @@ func (f *snapFileW) Close() error {
 		}
 		return err
 	})
+	if f.own && !f.n.ghost.Load() {
+		// scheduler gate "after:snap_close": the node's own snapshot is published, takeSnapshot
+		// has not returned to the library yet (it holds no lock there)
+		f.n.fsm.wait("after:snap_close")
+	}
+	return err
 }
 
 func (f *snapFileW) Discard() error {
